@@ -13,6 +13,28 @@ func (t *TabularGraph) ParseEdge(gid string) (string, string, string, error) {
 	return tmp[0], tmp[2], tmp[1], nil
 }
 
+// SplitID returns every (source row id, destination row id) pair for which GenID of
+// this (outgoing) edge source produces gid.
+func (es *EdgeSource) SplitID(gid string) [][2]string {
+	out := [][2]string{}
+	if es.reverse || !strings.HasPrefix(gid, es.fromVertex.prefix) {
+		return out
+	}
+	rest := gid[len(es.fromVertex.prefix):]
+	mid := "-" + es.config.Label + "-" + es.toVertex.prefix
+	for i := 0; i < len(rest); i++ {
+		j := strings.Index(rest[i:], mid)
+		if j < 0 {
+			break
+		}
+		i += j
+		if src, dst := rest[:i], rest[i+len(mid):]; src != "" && dst != "" {
+			out = append(out, [2]string{src, dst})
+		}
+	}
+	return out
+}
+
 func (es *EdgeSource) GenID(srcID, dstID string) string {
 	if es.reverse {
 		return es.toVertex.prefix + srcID + "-" + es.config.Label + "-" + es.fromVertex.prefix + dstID
